@@ -183,7 +183,7 @@ def _eq_rand(rng, kind):
 
 def eq_ops(rng, tier, kinds=(), cyc_types=()):
     """`eq.v` requests for the value kinds and `eq.cyc` requests for the LoopTyme type numbers"""
-    n = 40 if tier == "quick" else 600
+    n = 40 if tier == "quick" else 120
     L = []
     for kind in kinds:
         for _ in range(n):
@@ -217,14 +217,14 @@ def eq_ops(rng, tier, kinds=(), cyc_types=()):
             for b in bs:
                 L.append("eq.v %d %s %s" % (kind, " ".join(map(str, a)), " ".join(map(str, b))))
     for t in cyc_types:
-        for _ in range(8 if tier == "quick" else 60):
+        for _ in range(8 if tier == "quick" else 16):
             i = rng.randint(-200, 200)
             for j in (i, i + 1, i - 1, rng.randint(-200, 200), i + rng.choice([2, 5, 10, 12, 60]), -i):
                 L.append("eq.cyc %d %d %d" % (t, i, j))
     return L
 
 
-def objhist_ops(rng, tier, kinds=(0, 1), n_quick=300, n_thorough=3000):
+def objhist_ops(rng, tier, kinds=(0, 1), n_quick=300, n_thorough=900):
     """read-step-read histories on ONE LunarHour (kind 0) / LunarDay (kind 1) value (op c10.objhist): a step or clone that carries
     the source value's lazily filled memos over gives answers about the wrong day"""
     L = []
@@ -239,7 +239,7 @@ def objhist_ops(rng, tier, kinds=(0, 1), n_quick=300, n_thorough=3000):
 def dep_ops(rng, tier):
     """the older (deprecated, public) pillar getters of LunarDay / LunarHour at random dates and instants"""
     L = []
-    for _ in range(300 if tier == "quick" else 4000):
+    for _ in range(300 if tier == "quick" else 900):
         y, m, d = rand_date(rng, 27, 9990)
         L.append("scd.dep %d %d %d" % (y, m, d))
         L.append("sch.dep %d %d %d %d %d %d" % (y, m, d, rng.choice([0, 1, 12, 22, 23, rng.randint(0, 23)]), rng.randint(0, 59), rng.randint(0, 59)))
@@ -250,7 +250,7 @@ def lhour_cmp_ops(rng, tier):
     """order and equality of the lunar hours of two civil instants (same instant, a second / an hour / a day / one or two
     lunations apart — the leap twin of a month is one lunation away — and unrelated)"""
     L = []
-    for _ in range(250 if tier == "quick" else 3000):
+    for _ in range(250 if tier == "quick" else 700):
         y, m, d = rand_date(rng, 300, 9900)
         if not _civil_ok(y, m, d):
             continue
@@ -283,9 +283,9 @@ def with_extra(base, eq_kinds=(), eq_cyc=(), objhist=(), dep=False, lhour=False,
         if lhour:
             L += lhour_cmp_ops(rng, tier)
         if ec_names:
-            L += ["ec.names %d %d %d %d" % tuple(rng.randint(0, 59) for _ in range(4)) for _ in range(200 if tier == "quick" else 3000)]
+            L += ["ec.names %d %d %d %d" % tuple(rng.randint(0, 59) for _ in range(4)) for _ in range(200 if tier == "quick" else 600)]
         if fetus_wire:
-            L += ["fetus.wire %d %d %d" % t for t in (rand_date(rng, 27, 9990) for _ in range(400 if tier == "quick" else 6000)) if _civil_ok(*t)]
+            L += ["fetus.wire %d %d %d" % t for t in (rand_date(rng, 27, 9990) for _ in range(400 if tier == "quick" else 1200)) if _civil_ok(*t)]
         return L
     ops.__name__ = getattr(base, "__name__", "ops")
     ops.__doc__ = base.__doc__
